@@ -70,13 +70,17 @@ SPEC = {
     'no theorem concludes a distinctness from different shapes alone, and the no-reuse oracle identifies lanes by index only',
   ],
   'model_partial': [
-    'no theorem is named _partial. Scope of the closed-form Linen theorems: linen_key_is_function_of_position / unrelated_edits_inert / '
-    'fallback_params / no_reuse_within_run(_without_separator) quantify over nn.jit-free programs; for programs with (nested) nn.jit the '
-    'proved statements are linen_counters_are_path_addressed (refinement to the path-addressed semantics specProg) and '
-    'no_reuse_within_run_jit (separator on, seeds are key atoms); an inertness theorem in closed form for jit programs is not stated',
-    'replay_preserves_aliasing / rerun_equals_first_run are proved on the counter-heap model CHeap (cells addressed by (root id, path), '
-    'links parent-entry -> cell), which is a separate small model next to Store; it is tied to the code by check_jit_alias and the '
-    'linen rerun oracle, not by a Lean refinement to runProg',
+    'no theorem is named _partial. For programs with (nested) nn.jit the proved statements are linen_counters_are_path_addressed '
+    '(refinement to specProg), no_reuse_within_run_jit and linen_key_count_is_rank_with_jit (position function: the count folded into a key is '
+    'its rank among all requests — user draws and fork_rngs draws — at its (scope path, stream); separator on, seeds are key atoms, '
+    'NUL-free names, p.size < 256); they assume, like the model, that a jit-ted body makes the same draws whenever it runs (draw counts '
+    'independent of input shapes: known finding jit-draw-count-depends-on-input-shape). unrelated_edits_inert is stated for jit-free programs only; '
+    'with jit, inertness follows from the rank theorem only for edits that add no request at the same (path, stream)',
+    'replay_preserves_aliasing / rerun_equals_first_run live on the counter heap CHeap; jit_call_simulated_by_heap_replay, heap_push_commutes and '
+    'heap_draw_commutes tie CHeap to the executable Store machine through the table of counts (Rep / HeapRep); the simulation is proved for '
+    'jit-free bodies of the jit-ted call (a nested jit inside the replayed body is not covered)',
+    'split_restore_unselected_untouched and split_restore_resumes_rngs are stated for Rngs whose streams are all scalar when split_rngs is called '
+    '(squeeze=False); nested / squeezed splits are covered by nnx_no_replay_along_history (one stream) and by correspondence',
   ],
 }
 
